@@ -113,7 +113,12 @@ func goTypeOf(e ast.Expr) gty {
 	if ty, ok := namedTypes[exprString(e)]; ok {
 		return ty
 	}
+	if ty, ok := localNamed[exprString(e)]; ok {
+		return ty
+	}
 	switch exprString(e) {
+	case "*bytes.Buffer":
+		return tBuf
 	case "TemplateMapper":
 		return tTMapper
 	case "PacketMapper":
@@ -192,6 +197,8 @@ func leanTy(t gty) string {
 		return "List " + strings.TrimPrefix(string(t), "list:struct:")
 	}
 	switch t {
+	case tBuf:
+		return "Bytes"
 	case tAny:
 		return "Go.Any"
 	case tTMapper:
@@ -419,6 +426,7 @@ type tr struct {
 	refParams   map[string]bool // parameters of pointer type: the variable holds the pointee
 	fieldStores bool            // the function stores through an index of a message column
 	refOrder    []string        // the pointer parameters in order
+	stVars      []string        // the state of a state-passing function: its buffer and the structs it fills, in order
 	ctlLoop     bool            // inside a loop with three exits (forStmtCtl)
 	outline     bool            // every loop body (and every switch case ending a statement list) becomes a definition of its own
 	caseBlocks  map[*ast.BlockStmt]string
@@ -649,6 +657,10 @@ func (t *tr) expr(e ast.Expr) val {
 			return t.failV(x, "three-index slice")
 		}
 		base := t.expr(x.X)
+		if isStructList(base.ty) && x.Low == nil && x.High != nil && !intMode {
+			hi := t.as(x.High, t.expr(x.High), tInt)
+			return val{code: t.bind("Go.sliceToL " + base.code + " " + hi), ty: base.ty}
+		}
 		if base.ty != tBytes {
 			return t.failV(x, "slice of %s (only []byte)", base.ty)
 		}
@@ -667,8 +679,11 @@ func (t *tr) expr(e ast.Expr) val {
 		return base
 	case *ast.CompositeLit:
 		ty := goTypeOf(x.Type)
+		if isStruct(ty) && len(x.Elts) == 0 {
+			return val{code: "({} : " + leanTy(ty) + ")", ty: ty}
+		}
 		el := elemOf(ty)
-		if el == tBad {
+		if el == tBad || isStructList(ty) {
 			return t.failV(x, "composite literal of type %s", exprString(x.Type))
 		}
 		var items []string
@@ -1140,6 +1155,23 @@ func (t *tr) sprintf(x *ast.CallExpr) val {
 
 func (t *tr) call(x *ast.CallExpr) val {
 	fn := exprString(x.Fun)
+	if ut, ok := localNamed[fn]; ok && len(x.Args) == 1 {
+		// IPAddress(x): a named integer type of the package, same values as its underlying type
+		return t.convert(x, ut, t.expr(x.Args[0]))
+	}
+	if se, ok := x.Fun.(*ast.SelectorExpr); ok && se.Sel.Name == "Len" && len(x.Args) == 0 {
+		if id, ok := se.X.(*ast.Ident); ok {
+			if ty, _ := t.lookup(id.Name); ty == tBuf && !intMode {
+				return val{code: leanIdent(id.Name) + ".length", ty: tInt}
+			}
+		}
+	}
+	if fn == "make" && len(x.Args) == 2 && !intMode {
+		if lt := goTypeOf(x.Args[0]); isStructList(lt) {
+			n := t.as(x.Args[1], t.expr(x.Args[1]), tInt)
+			return val{code: t.bind("Go.makeL " + n + " ({} : " + leanTy(elemOf(lt)) + ")"), ty: lt}
+		}
+	}
 	switch fn {
 	case "len":
 		if len(x.Args) != 1 {
@@ -1375,6 +1407,14 @@ func (t *tr) assignTo(lhs ast.Expr, v val, define bool) []string {
 		upd := func(field, rhs string) []string {
 			return []string{"let " + b + " : " + leanTy(bty) + " := { " + b + " with " + field + " := " + rhs + " }"}
 		}
+		if isStruct(bty) {
+			for _, f := range structFields[bty] {
+				if f.name == l.Sel.Name {
+					return upd(leanIdent(f.name), t.as(l, v, f.ty))
+				}
+			}
+			return []string{t.fail(l, "%s has no field %s", bty, l.Sel.Name)}
+		}
 		switch bty {
 		case tMsg:
 			kind, ok := t.msgKind[l.Sel.Name]
@@ -1430,6 +1470,20 @@ func (t *tr) assignTo(lhs ast.Expr, v val, define bool) []string {
 			return []string{t.fail(l, "assignment target %s", exprString(l))}
 		}
 		if se, ok := l.X.(*ast.SelectorExpr); ok {
+			// s.F[i] = v on a slice-of-structs field of a struct variable (the struct owns the slice: it was made here)
+			if id, ok := se.X.(*ast.Ident); ok {
+				if bty, _ := t.lookup(id.Name); isStruct(bty) && !intMode {
+					for _, f := range structFields[bty] {
+						if f.name == se.Sel.Name && isStructList(f.ty) {
+							b := leanIdent(id.Name)
+							i := t.as(l.Index, t.expr(l.Index), tInt)
+							r := t.bind("Go.setIdxL " + b + "." + leanIdent(f.name) + " " + i + " " + t.as(l, v, elemOf(f.ty)))
+							out := t.flush()
+							return append(out, "let "+b+" : "+leanTy(bty)+" := { "+b+" with "+leanIdent(f.name)+" := "+r+" }")
+						}
+					}
+				}
+			}
 			// flowMessage.F[i] = v on a []uint32 column: the message owns its slices
 			if id, ok := se.X.(*ast.Ident); ok {
 				if bty, _ := t.lookup(id.Name); bty == tMsg && t.msgKind[se.Sel.Name] == "listU32" && !intMode {
@@ -1724,7 +1778,8 @@ func assignedNames(nodes []ast.Node) map[string]bool {
 			case *ast.CallExpr:
 				// the message / the destination cell handed to a call: the callee may write through the pointer
 				for _, a := range x.Args {
-					if id, ok := a.(*ast.Ident); ok && pointerVars[id.Name] {
+					if id, ok := a.(*ast.Ident); ok && (pointerVars[id.Name] || exprString(x.Fun) == "utils.BinaryDecoder") {
+						// BinaryDecoder fills the slices it is given
 						out[id.Name] = true
 					}
 				}
@@ -1886,6 +1941,8 @@ func (t *tr) ret(x *ast.ReturnStmt) []string {
 	var out []string
 	var vals []string
 	switch t.retKind {
+	case "st":
+		return t.retSt(x)
 	case "msgerr":
 		if len(x.Results) != 1 {
 			return []string{t.fail(x, "return arity")}
@@ -1961,6 +2018,11 @@ func (t *tr) ifStmt(x *ast.IfStmt, rest []ast.Stmt, k konts) []string {
 	mark := len(t.env)
 	defer func() { t.env = t.env[:mark] }()
 	var out []string
+	if ce, cls, ok := tryPattern(x); ok && t.retKind == "st" {
+		lines, _ := t.effectCallSt(ce, cls)
+		out = append(out, lines...)
+		return append(out, t.block(rest, k)...)
+	}
 	if ce, ok := isTry(x); ok && (t.retKind == "msgerr" || t.retKind == "cell") {
 		// if err := f(…); err != nil { return err }: the error of f is the error of this function
 		lines, _ := t.effectCall(ce)
@@ -2297,10 +2359,18 @@ func (t *tr) forStmt(x *ast.ForStmt, fuel string) []string {
 	}
 	if fuel == "" {
 		dataTy, _ := t.lookup("data")
-		if dataTy != tBytes || intMode {
-			return append(out, t.fail(x, "loop in a function without `data []byte` (no fuel)"))
+		if dataTy == tBytes && !intMode {
+			fuel = "(Go.loopFuel data)"
+		} else {
+			for _, v := range t.env {
+				if v.ty == tBuf && !intMode {
+					fuel = "(Go.loopFuel " + leanIdent(v.name) + ")"
+				}
+			}
 		}
-		fuel = "(Go.loopFuel data)"
+		if fuel == "" {
+			return append(out, t.fail(x, "loop in a function without `data []byte` or a buffer (no fuel)"))
+		}
 	}
 	asg := assignedNames([]ast.Node{x.Body, x.Post})
 	use := usedNames([]ast.Node{x.Cond, x.Body, x.Post})
@@ -2411,6 +2481,7 @@ func (t *tr) function(fd *ast.FuncDecl) string {
 	t.noEscape, t.ranges, t.gen = 0, 0, false
 	t.refParams, t.fieldStores, t.ctlLoop, t.refOrder = map[string]bool{}, false, false, nil
 	t.caseBlocks, t.caseNames, t.curResTy = map[*ast.BlockStmt]string{}, map[string]int{}, ""
+	t.stVars = nil
 
 	var params []string
 	var sig fnSig
@@ -2424,10 +2495,14 @@ func (t *tr) function(fd *ast.FuncDecl) string {
 	for _, p := range fd.Type.Params.List {
 		ty := goTypeOf(p.Type)
 		isRef := false
+		isStructPtr := false
 		if st, ok := p.Type.(*ast.StarExpr); ok && ty == tBad {
 			// p *[]byte, q *uint32: the variable holds the pointee, the function returns the pointees
 			if pt := goTypeOf(st.X); pt == tBytes || isUnsigned(pt) {
 				ty, isRef = pt, true
+			} else if isStruct(pt) {
+				ty = pt // p *T: the variable holds the struct, selectors go through the pointer by themselves
+				isStructPtr = true
 			}
 		}
 		if ty == tBad {
@@ -2437,6 +2512,10 @@ func (t *tr) function(fd *ast.FuncDecl) string {
 			if isRef {
 				t.refParams[nm.Name] = true
 				t.refOrder = append(t.refOrder, nm.Name)
+				sig.refs = append(sig.refs, len(sig.params))
+			}
+			if ty == tBuf || isStructPtr {
+				t.stVars = append(t.stVars, nm.Name)
 				sig.refs = append(sig.refs, len(sig.params))
 			}
 			t.declare(nm, nm.Name, ty)
@@ -2484,6 +2563,18 @@ func (t *tr) function(fd *ast.FuncDecl) string {
 	if len(t.retTys) == 2 && t.retTys[0] == tRes && t.retTys[1] == tError && msgTy == tMsg && named {
 		t.retKind = "parser"
 		resTy = "Res PRes"
+	} else if len(t.stVars) > 0 && len(t.retTys) >= 1 && t.retTys[len(t.retTys)-1] == tError && !named && t.msgVar == "" && t.cellVar == "" && len(t.refOrder) == 0 {
+		// state-passing: the buffer and the structs behind pointers come back in front of the results
+		t.retKind = "st"
+		var tys []string
+		for _, sv := range t.stVars {
+			st, _ := t.lookup(sv)
+			tys = append(tys, leanTy(st))
+		}
+		for _, rt := range t.retTys[:len(t.retTys)-1] {
+			tys = append(tys, leanTy(rt))
+		}
+		resTy = "Res (" + strings.Join(tys, " × ") + ")"
 	} else if t.cellVar != "" && len(t.retTys) == 1 && t.retTys[0] == tError && !named {
 		// the cell the `out interface{}` parameter points to travels with the result
 		t.retKind = "cell"
@@ -2532,6 +2623,9 @@ func (t *tr) function(fd *ast.FuncDecl) string {
 	}
 	if t.cellVar != "" {
 		pointerVars[t.cellVar] = true
+	}
+	for _, sv := range t.stVars {
+		pointerVars[sv] = true
 	}
 	body := append(prologue, t.block(fd.Body.List, fall)...)
 	translatedSigs[fd.Name.Name] = sig
